@@ -223,6 +223,12 @@ FAMILIES = [
            required_labels=["bad_rows=some", "kind=series", "kind=column", "index=multi", "expect-raise"]),
 ]
 
+from . import plx  # noqa: E402
+
+FAMILIES.append(
+    Family("polars", plx.eval_c11, strategy=plx.strat_c11, n_quick=350, n_thorough=3000, shards_quick=3, shards_thorough=12,
+           required_labels=["container=lf_full", "ref=some-bad", "ref=non-row-violation"]))
+
 
 def selftest():
     refmodel.selftest()
